@@ -33,14 +33,14 @@ def run(ck):
 
 
 # ---------------------------------------------------------------- C02-R
-def rule_R(ck, lib):
+def rule_R(ck, lib, pfx="C02"):
     rs = runsum.RunSummary(ck, lib)
     if not rs.ok:
         return
-    ck.judge(rs.path_id is not None and rs.path_arg[0] == "loopvar", "C02-R2", "run:parse:path-arg",
+    ck.judge(rs.path_id is not None and rs.path_arg[0] == "loopvar", pfx + "-R2", "run:parse:path-arg",
              "parse(root, <path variable %s>, input)" % show_term(rs.path_arg),
              "second argument of parse is not a loop-carried local: %s" % show_term(rs.path_arg))
-    ck.judge(is_root(rs.root_arg), "C02-R2", "run:parse:root-arg", "first argument of parse is self.root_node()",
+    ck.judge(is_root(rs.root_arg), pfx + "-R2", "run:parse:root-arg", "first argument of parse is self.root_node()",
              "first argument of parse is %s, not self.root_node()" % show_term(rs.root_arg))
     if rs.path_id is None:
         return
@@ -48,9 +48,9 @@ def rule_R(ck, lib):
     info = rs.ps.loops.get(rs.loop_site, {"entry": []})
     for st in info["entry"]:
         v = st.env.get(rs.path_id)
-        ck.judge(v is not None and is_root(v), "C02-R1", "run:path-var:initial", "path variable starts as self.root_node()",
+        ck.judge(v is not None and is_root(v), pfx + "-R1", "run:path-var:initial", "path variable starts as self.root_node()",
                  "path variable starts as %s" % (show_term(v) if v else "unset"))
-    ck.floor("C02-R1", "loop entries of run", len(info["entry"]), 1)
+    ck.floor(pfx + "-R1", "loop entries of run", len(info["entry"]), 1)
     # R3-R5 per back-edge path
     n = 0
     for i, x in enumerate(rs.exits):
@@ -92,12 +92,12 @@ def rule_R(ck, lib):
                 ok = actual == head
             else:
                 ok = False
-            ck.judge(ok, "C02-R3" if want == "root" else "C02-R4", "run:path[%s]:%s" % (desc, want),
+            ck.judge(ok, (pfx + "-R3") if want == "root" else (pfx + "-R4"), "run:path[%s]:%s" % (desc, want),
                      "path variable at back-edge is %s (%s)" % (show_term(actual), why),
                      "path variable at the back-edge is `%s` but must be %s: %s" % (show_term(actual) if actual else "?", {"root": "self.root_node()", "header": "the unit's parent header", "same": "unchanged"}.get(want, want), why),
                      str(x.effects[-1][-1]) if x.effects else None,
                      data={"path": pathsum.show_exit(x)[:2000]})
-    ck.floor("C02-R3", "loop-body paths of run reaching the back-edge", n, 4)
+    ck.floor(pfx + "-R3", "loop-body paths of run reaching the back-edge", n, 4)
 
 
 # ---------------------------------------------------------------- C02-P
